@@ -18,6 +18,12 @@ CLAIMED = {
  "C16": ("SegmentTensor.contains <=> 0 <= t <= 1 for every real segment and query point (2D and 3D, arbitrary homogeneous representatives, rays with an end point at infinity), off-line points rejected, Triangle.contains <=> all barycentric coordinates >= 0 for all real vertices/points/representatives: proved by z3 on the path conditions of the real code. The generic polygon algorithm is only in the thorough tier (3-gon) - see DESIGN.", "4.16"),
  "C03": ("Projective equality (real __eq__ on the real is_multiple body): x == k*x, reflexive, symmetric, equal <=> all 2x2 minors vanish; relational two-run contracts f(k*x) ~ f(x) for join, meet, contains, is_collinear, quadric membership in every argument position; plus the representative-free specifications of C01/C11/C16/C20 cases that are stated for arbitrary homogeneous representatives (cross ratio in pencil parameters, segment/triangle membership with symbolic scale factors). PolygonTensor.contains only by a bounded stand-in.", "4.3"),
  "C09": ("2D: dist(point, point)^2 equals the squared Cartesian distance for arbitrary homogeneous representatives, dist >= 0, symmetric, zero <=> same point, infinite for exactly one point at infinity; dist(line, point) and dist(point, line) through the real project/perpendicular/mirror/join/meet chain equal |l.p|/(|n| |pz|), zero <=> incident; angle of three points: the value fed to the logarithm satisfies the Laguerre identity w*z == conj(z), antisymmetry (all by z3/normal form for all real inputs). 3D distances (SVD/QR leaves) only by a bounded lattice stand-in; plane-point 3D symbolic in the thorough tier.", "4.9"),
+ "C10": ("2D (all real lines/points, arbitrary representatives): perpendicular (both the on-line and off-line branch), parallel, project, mirror (closed-form reflection, hence involution; midpoint on the line), is_parallel / is_perpendicular <=> normal conditions, is_collinear / is_concurrent (3 and 4 arguments) <=> determinants, is_cocircular <=> circle determinant, base_point / direction / general_point / basis_matrix (orthonormal rows on the line) on every zero-pattern path; 3D: PlaneTensor.perpendicular / parallel / project. 3D line constructions, PlaneTensor.mirror/basis_matrix (SVD/QR leaves) and angle_bisectors are not covered.", "4.10"),
+ "C13": ("Conic.from_points contains its five points (all real finite points, 32 normalisation paths), from_crossratio contains a, b, c, d and every point that sees them under the given cross ratio, from_lines/from_planes have the matrix g h^T + h g^T, Ellipse/Circle/Sphere matrices equal k * (Cartesian locus equation) with k != 0 for all centres/radii, radius/center/area/volume read back the parameters and the textbook measures. from_tangent/from_foci/Cone/Cylinder are not covered (sqrt towers / transcendental composition).", "4.13"),
+ "C14": ("Symbolic symmetric matrices in 2D and 3D: tangent(at) = M.at contains at iff at lies on the quadric, pole/polar reciprocity, dual matrix = adj/det with flipped flag, dual.dual == self, is_tangent(h) <=> h^T adj(M) h == 0 with the lemma that tangent hyperplanes are tangent, dual/is_tangent work for Circle/Ellipse/Sphere; conic x line: every returned (complex) point lies on both, on all 41 arg-max/branch paths.", "4.14"),
+ "C15": ("Conic.from_lines(g, h) for all distinct lines: is_degenerate and components == {g, h} as an unordered pair on all 30 paths (csqrt leaf either branch); from_planes is_degenerate; from_planes components and conic x conic only by bounded lattice stand-ins.", "4.15"),
+ "C17": ("2D Polygon.area == |shoelace|/2 and centroid == area centroid for n = 3,4 (area n = 5) with arbitrary vertex representatives, invariance under roll/reversal on the real function, Simplex.volume (|det|/2 in the plane, Cayley-Menger branch for a triangle in 3-space), Segment.length, polytope == under roll/flip/rescaling (quadrilateral); RegularPolygon read-backs, 3D polygon / cuboid areas, circumcenter, midpoint by a bounded lattice stand-in.", "4.17"),
+ "C18": ("SegmentTensor.intersect(Segment) in 2D: exactly one point iff the lines are not parallel and both parameters lie in [0,1], the point is the crossing, [] otherwise (modular: Segment.contains replaced by its verified contract); intersect(Line): one point iff the line separates the end points; utils.distinct exhaustively over every (also non-transitive) equality relation on <= 5 elements; polygon / polyhedron intersections by a bounded lattice stand-in.", "4.18"),
 }
 NA = {}
 def main():
